@@ -31,7 +31,11 @@ type Case struct {
 	Edges [][2]int `json:"edges"`
 	Order []int    `json:"order"`
 	CLI   bool     `json:"cli,omitempty"`
+	Names []string `json:"names,omitempty"` // stage names (default s0, s1, ...): any distinct strings are valid names
 }
+
+// current case's names (set by the run functions; the helpers below use it)
+var curNames []string
 
 func (c Case) adj() [][]bool {
 	a := make([][]bool, c.N)
@@ -77,7 +81,12 @@ func cyclic(n int, adj [][]bool) bool {
 	return seen != n
 }
 
-func name(i int) string { return fmt.Sprintf("s%d", i) }
+func name(i int) string {
+	if i < len(curNames) {
+		return curNames[i]
+	}
+	return fmt.Sprintf("s%d", i)
+}
 
 func set(xs []string) string {
 	m := map[string]bool{}
@@ -129,6 +138,7 @@ func record(c Case, adj [][]bool, cyc bool) {
 
 // runAPI is the in-process oracle.
 func runAPI(c Case) error {
+	curNames = c.Names
 	adj := c.adj()
 	want := cyclic(c.N, adj)
 	record(c, adj, want)
@@ -185,6 +195,7 @@ var (
 
 // runCLI writes the same graph as YAML and asks the binary.
 func runCLI(c Case, dir string) error {
+	curNames = c.Names
 	adj := c.adj()
 	want := cyclic(c.N, adj)
 	record(c, adj, want)
@@ -346,6 +357,25 @@ func genCase(rt *rapid.T, maxN int) Case {
 		return c.Edges[i][1] < c.Edges[j][1]
 	})
 	c.Order = rapid.Permutation(seq(n)).Draw(rt, "order")
+	// stage names: plain, or built from few tokens and one separator, so that different pairs of names
+	// concatenate to the same text ("build" + "linux:test" vs "build:linux" + "test")
+	if rapid.IntRange(0, 2).Draw(rt, "composite-names") == 0 {
+		sep := rapid.SampledFrom([]string{":", "/", "-", ".", " ", ",", "->", "|", "=", "_"}).Draw(rt, "separator")
+		seen := map[string]bool{}
+		for len(c.Names) < n {
+			k := rapid.IntRange(1, 3).Draw(rt, "name-parts")
+			var parts []string
+			for i := 0; i < k; i++ {
+				parts = append(parts, rapid.SampledFrom([]string{"a", "b", "c"}).Draw(rt, "name-part"))
+			}
+			nm := strings.Join(parts, sep)
+			if seen[nm] {
+				nm = fmt.Sprintf("%s%s%d", nm, sep, len(c.Names))
+			}
+			seen[nm] = true
+			c.Names = append(c.Names, nm)
+		}
+	}
 	if rapid.Bool().Draw(rt, "shuffle-depends_on-entries") && len(c.Edges) > 1 {
 		c.Edges = rapid.Permutation(c.Edges).Draw(rt, "edge-order")
 	}
